@@ -27,7 +27,7 @@ REQUIRED = {"grammar.fault_free": {"quick": 100, "thorough": 5000}, "recipe.same
             "fault.before_phase_suppresses_body": {"quick": 800, "thorough": 60000},
             "fault.run_fails": {"quick": 3000, "thorough": 200000}, "model.hook_sequence": {"quick": 80, "thorough": 4000},
             "dry_run.no_hooks": {"quick": 5, "thorough": 300}}
-REQUIRED_SEEN = {"selection_shape": ["by_rendered_outline_tag"], "hook_decoration": ["capture", "plain"], "hook_habit": ["reads_status_of_its_element", "plain"], "fault_hook": ["before_all", "after_all", "before_feature", "after_feature", "before_rule", "after_rule",
+REQUIRED_SEEN = {"tag_name_class": ["contains_percent_sign"], "selection_shape": ["by_rendered_outline_tag"], "hook_decoration": ["capture", "plain"], "hook_habit": ["reads_status_of_its_element", "plain"], "fault_hook": ["before_all", "after_all", "before_feature", "after_feature", "before_rule", "after_rule",
                                 "before_scenario", "after_scenario", "before_step", "after_step", "before_tag", "after_tag"],
                  "tag_hook_owner_kind": ["feature", "rule", "scenario"]}
 EXHAUSTIVE = True
@@ -442,6 +442,10 @@ def run(spec, mon):
             # hardly any plain tags, outlines with parametrised tags and untagged Examples: a selection by a RENDERED tag
             # (@p.<t> -> --tags=@p.a) is the only reason for the enclosing feature / rule to run -- with all their hooks
             gen.update({"p_tag": 0.08, "p_param_tag": 1.0, "p_outline": 0.7, "max_items": 3})
+        if i % 4 == 1:
+            # tag names with a percent sign (@quota_100%, @50%s): tag hooks -- failing ones too -- are called for them like for any tag
+            gen.update({"tags": ["a", "b", "quota_100%", "50%s", "e"], "tag_values": ["a", "b"]})
+            mon.seen("tag_name_class", "contains_percent_sign")
         case = RB.gen_case(rng, gen=gen, p_stop=0.25, p_dry=0.08, p_noskipped=0.3, p_names=0.2, p_user_skip=0.6 if i % 4 == 2 else 0.15)
         if i % 4 == 3:
             tv = rng.choice(gen.get("tags") or ["a", "b", "c", "d", "e"])
